@@ -55,7 +55,7 @@ theorem xmlString_decl_body (p : XmlParams) (t : Tree) (start : Path) (hdt : p.d
   exact h2
 
 /-- A declaration token with version `1.0` changes nothing for the builder. -/
-theorem build_declaration (m : Mode) (len : Nat) (v : Nat) (e : Option StrSpan) (sa : Option Bool) (sp : StrSpan)
+theorem build_declaration_opt (m : Mode) (len : Nat) (v : Nat) (e : Option StrSpan) (sa : Option Bool) (sp : StrSpan)
     (ts : List Token) (lexErr : Option Nat) :
     build m len env (.declaration ⟨['1', '.', '0'], v⟩ e sa sp :: ts) lexErr = build m len env ts lexErr := by
   simp [build, Builder.run, Builder.step]
@@ -82,7 +82,7 @@ theorem options_decl_roundtrip (p : XmlParams) {t : Tree} (hr : Representable en
     obtain ⟨q, hq, h1, h2, _⟩ := build_erase_ok .document _ (strLen (d.bytes ++ renderTokens ts')) env ts' ts
       her.symm p0 hb0
     refine ⟨q, ?_, by rw [h1, ht], by rw [h2, he]⟩
-    simp only [parseString, lexMode, hl, build_declaration]
+    simp only [parseString, lexMode, hl, build_declaration_opt]
     exact hq
 
 /-- **Fragment start / `parse_fragment`**: a declaration in front makes `parse_fragment` fail, with the
